@@ -1,5 +1,6 @@
-import ShuttleProofs.Lemmas.ReplaySched
+import ShuttleProofs.Lemmas.ReplayData
 import ShuttleProofs.Lemmas.ReplayExamples
+import ShuttleProofs.C16
 
 /-!
 # C01 — an execution is determined by its recorded schedule; replay reproduces it
@@ -82,5 +83,275 @@ theorem replay_faithful_core (P : Program) (S : Scheduler σ) (ms : MaxSteps) (s
     P ms seed s (replayStart (recordedOf seed (execute P S ms seed s fuel segFuel))) fuel segFuel hsp
     (RR_init P S ms seed s fuel segFuel hsp hst hdf)
   exact ⟨rsF, h1, h2.schedule, by rw [h2.schedule]; exact h2.exhausted, h2.skipped, h2.started⟩
+
+/-- **replay_faithful.**  For every program `P`, every scheduler `S` (any state type), every `MaxSteps`, seed,
+initial scheduler state and fuel: if the execution `r` did not end with a scheduler panic nor with the scheduler
+answering `None`, and is `DataFaithful`, then the `ReplayScheduler` built from the schedule `r` recorded starts an
+execution with the same seed, and that execution has the same event log, the same outcome, the same final user
+state, kernel state and continuations, and records the same schedule again.
+
+(The hypothesis "`r.outcome ≠ outOfFuel`" of the informal statement is not needed: with the same model fuel the
+replay runs out of fuel at the same point.) -/
+theorem replay_faithful (P : Program) (S : Scheduler σ) (ms : MaxSteps) (seed : Nat) (s : σ) (fuel segFuel : Nat)
+    (hsp : ∀ msg, (execute P S ms seed s fuel segFuel).outcome ≠ .schedPanic msg)
+    (hst : (execute P S ms seed s fuel segFuel).outcome ≠ .stopped)
+    (hdf : DataFaithful seed (execute P S ms seed s fuel segFuel).st.log.toList) :
+    ∃ seed' rs0,
+      replayScheduler.newExec (newFromSchedule (recordedOf seed (execute P S ms seed s fuel segFuel))) =
+        .some seed' rs0 ∧ seed' = seed ∧
+      (execute P replayScheduler.sched ms seed' rs0 fuel segFuel).st.log =
+        (execute P S ms seed s fuel segFuel).st.log ∧
+      (execute P replayScheduler.sched ms seed' rs0 fuel segFuel).outcome =
+        (execute P S ms seed s fuel segFuel).outcome ∧
+      (execute P replayScheduler.sched ms seed' rs0 fuel segFuel).st.u =
+        (execute P S ms seed s fuel segFuel).st.u ∧
+      (execute P replayScheduler.sched ms seed' rs0 fuel segFuel).st.k =
+        (execute P S ms seed s fuel segFuel).st.k ∧
+      (execute P replayScheduler.sched ms seed' rs0 fuel segFuel).st.conts =
+        (execute P S ms seed s fuel segFuel).st.conts ∧
+      (execute P replayScheduler.sched ms seed' rs0 fuel segFuel).st.k.schedule_ =
+        (execute P S ms seed s fuel segFuel).st.k.schedule_ ∧
+      recordedOf seed' (execute P replayScheduler.sched ms seed' rs0 fuel segFuel) =
+        recordedOf seed (execute P S ms seed s fuel segFuel) := by
+  obtain ⟨h0, rsF, h1, _⟩ := replay_faithful_core P S ms seed s fuel segFuel hsp hst hdf
+  refine ⟨seed, _, h0, rfl, ?_⟩
+  rw [h1]
+  exact ⟨rfl, rfl, rfl, rfl, rfl, rfl, rfl⟩
+
+/-- **replay_exhausts_schedule.**  In the replay of a recorded execution none of the replay scheduler's panics
+("schedule ended early", "expected context switch …", "scheduled task is not runnable …", "expected random choice
+…", index out of bounds) is reachable — the outcome is never a scheduler panic —, the cursor ends exactly at the
+end of the schedule, no step was skipped, and a second `new_execution` returns `None`. -/
+theorem replay_exhausts_schedule (P : Program) (S : Scheduler σ) (ms : MaxSteps) (seed : Nat) (s : σ)
+    (fuel segFuel : Nat)
+    (hsp : ∀ msg, (execute P S ms seed s fuel segFuel).outcome ≠ .schedPanic msg)
+    (hst : (execute P S ms seed s fuel segFuel).outcome ≠ .stopped)
+    (hdf : DataFaithful seed (execute P S ms seed s fuel segFuel).st.log.toList) :
+    ∃ rs0, replayScheduler.newExec (newFromSchedule (recordedOf seed (execute P S ms seed s fuel segFuel))) =
+        .some seed rs0 ∧
+      (∀ msg, (execute P replayScheduler.sched ms seed rs0 fuel segFuel).outcome ≠ .schedPanic msg) ∧
+      (execute P replayScheduler.sched ms seed rs0 fuel segFuel).st.sch.steps =
+        (recordedOf seed (execute P S ms seed s fuel segFuel)).steps.length ∧
+      (execute P replayScheduler.sched ms seed rs0 fuel segFuel).st.sch.schedule =
+        recordedOf seed (execute P S ms seed s fuel segFuel) ∧
+      (execute P replayScheduler.sched ms seed rs0 fuel segFuel).st.sch.stepsSkipped = 0 ∧
+      replayScheduler.newExec (execute P replayScheduler.sched ms seed rs0 fuel segFuel).st.sch = .none := by
+  obtain ⟨h0, rsF, h1, h2, h3, h4, h5⟩ := replay_faithful_core P S ms seed s fuel segFuel hsp hst hdf
+  refine ⟨_, h0, ?_⟩
+  rw [h1]
+  refine ⟨hsp, ?_, h2, h4, newExec_replayStarted _ h5⟩
+  show rsF.steps = _
+  rw [h3, h2]
+
+/-! ### `replay_from_string` -/
+
+/-- a recorded schedule is well-formed (representable: `u64` seed, `usize` ids and length) under the explicit
+side conditions -/
+theorem recorded_wf (seed : Nat) (steps : List SStep) (hseed : seed < 2 ^ 64)
+    (hids : ∀ t, SStep.task t ∈ steps → t < 2 ^ 64) (hlen : steps.length < 2 ^ 64) :
+    (Schedule.mk seed (steps.map ofSStep)).wf := by
+  refine ⟨hseed, ?_, by simpa using hlen⟩
+  intro id hid
+  simp only [List.mem_map] at hid
+  obtain ⟨st, hst, heq⟩ := hid
+  cases st with
+  | task t => simp only [ofSStep, ScheduleStep.task.injEq] at heq; subst heq; exact hids t hst
+  | random => cases heq
+
+/-- **replay_from_string**: `ReplayScheduler::new_from_encoded` applied to the printed form of a well-formed
+schedule is `new_from_schedule` of that schedule … -/
+theorem replay_from_string (sch : Schedule) (h : sch.wf) :
+    newFromEncoded (serializeSchedule sch) = some (newFromSchedule sch) := by
+  unfold newFromEncoded
+  rw [ShuttleModel.C16.roundtrip sch h]
+
+/-- … also with whitespace inserted / removed anywhere (e.g. re-wrapped, pasted with indentation). -/
+theorem replay_from_string_ws (sch : Schedule) (h : sch.wf) (t : String)
+    (ht : t.toList.filter (fun c => !isWhitespace c) = hexOfSchedule sch) :
+    newFromEncoded t = some (newFromSchedule sch) := by
+  unfold newFromEncoded
+  rw [ShuttleModel.C16.roundtrip_ws sch h t ht]
+
+theorem replay_from_string_ws_insert (sch : Schedule) (h : sch.wf) (a b ws : List Char)
+    (hab : (serializeSchedule sch).toList = a ++ b) (hws : ∀ c ∈ ws, isWhitespace c = true) :
+    newFromEncoded (String.ofList (a ++ ws ++ b)) = some (newFromSchedule sch) := by
+  unfold newFromEncoded
+  rw [ShuttleModel.C16.roundtrip_ws_insert sch h a b ws hab hws]
+
+/-- **The replay entry point** `shuttle::replay(f, printed schedule)`: runs exactly one execution, which is `r`
+again (`reRes r _`: same outcome, log, user state, kernel), and `Runner::run` returns `Ok(1)` iff `r` was not a
+failure. -/
+theorem replay_entry_point (P : Program) (S : Scheduler σ) (ms : MaxSteps) (seed : Nat) (s : σ) (fuel segFuel : Nat)
+    (hsp : ∀ msg, (execute P S ms seed s fuel segFuel).outcome ≠ .schedPanic msg)
+    (hst : (execute P S ms seed s fuel segFuel).outcome ≠ .stopped)
+    (hdf : DataFaithful seed (execute P S ms seed s fuel segFuel).st.log.toList)
+    (hwf : (recordedOf seed (execute P S ms seed s fuel segFuel)).wf) :
+    ∃ res rsF, Replay.replay P (serializeSchedule (recordedOf seed (execute P S ms seed s fuel segFuel))) ms fuel
+        segFuel = some res ∧
+      res.execs = [(seed, reRes (execute P S ms seed s fuel segFuel) rsF)] ∧
+      res.count = (if (execute P S ms seed s fuel segFuel).outcome.isFailure then none else some 1) ∧
+      res.newExecPanic = none := by
+  obtain ⟨h0, rsF, h1, h2, h3, h4, h5⟩ := replay_faithful_core P S ms seed s fuel segFuel hsp hst hdf
+  unfold Replay.replay
+  rw [replay_from_string _ hwf]
+  simp only [runner, h0, h1]
+  by_cases hf : (execute P S ms seed s fuel segFuel).outcome.isFailure = true
+  · refine ⟨_, rsF, rfl, ?_⟩
+    simp [reRes, hf]
+  · have hn : replayScheduler.newExec rsF = .none := newExec_replayStarted _ h5
+    refine ⟨_, rsF, rfl, ?_⟩
+    simp [reRes, hf, hn]
+
+/-! ### `builtin_data_faithful` -/
+
+/-- **builtin_data_faithful**: every execution started by the `Runner` loop under the round-robin, the random or
+the DFS scheduler (from any scheduler state, for any program) is `DataFaithful` for the seed `new_execution`
+returned — unless it ended with a scheduler panic (e.g. DFS with `allow_random_data = false` asked for data). -/
+theorem builtin_data_faithful (P : Program) (ms : MaxSteps) (fuel segFuel iters : Nat) :
+    (∀ (s : RRState), ∀ x ∈ (runner P rrScheduler ms fuel segFuel iters s []).execs, ExecFaithful x) ∧
+    (∀ (s : Rng.RandomScheduler), ∀ x ∈ (runner P randomScheduler ms fuel segFuel iters s []).execs,
+      ExecFaithful x) ∧
+    (∀ (s : DfsFull), ∀ x ∈ (runner P dfsScheduler ms fuel segFuel iters s []).execs, ExecFaithful x) :=
+  ⟨fun s => runner_data_faithful rr_dataFull P ms fuel segFuel iters s [] (by simp),
+   fun s => runner_data_faithful random_dataFull P ms fuel segFuel iters s [] (by simp),
+   fun s => runner_data_faithful dfs_dataFull P ms fuel segFuel iters s [] (by simp)⟩
+
+/-- single-execution form: after `new_execution` returned `seed`, the execution is `DataFaithful seed` -/
+theorem builtin_data_faithful_exec (P : Program) (ms : MaxSteps) (fuel segFuel : Nat) :
+    (∀ (s s' : RRState) seed, rrScheduler.newExec s = .some seed s' →
+      (∀ msg, (execute P rrScheduler.sched ms seed s' fuel segFuel).outcome ≠ .schedPanic msg) →
+      DataFaithful seed (execute P rrScheduler.sched ms seed s' fuel segFuel).st.log.toList) ∧
+    (∀ (s s' : Rng.RandomScheduler) seed, randomScheduler.newExec s = .some seed s' →
+      (∀ msg, (execute P randomScheduler.sched ms seed s' fuel segFuel).outcome ≠ .schedPanic msg) →
+      DataFaithful seed (execute P randomScheduler.sched ms seed s' fuel segFuel).st.log.toList) ∧
+    (∀ (s s' : DfsFull) seed, dfsScheduler.newExec s = .some seed s' →
+      (∀ msg, (execute P dfsScheduler.sched ms seed s' fuel segFuel).outcome ≠ .schedPanic msg) →
+      DataFaithful seed (execute P dfsScheduler.sched ms seed s' fuel segFuel).st.log.toList) :=
+  ⟨fun _ s' seed h hne => dataFaithful_of_proj rr_dataFull.sched P ms seed s' fuel segFuel
+      (rr_dataFull.newExec _ _ _ h) hne,
+   fun _ s' seed h hne => dataFaithful_of_proj random_dataFull.sched P ms seed s' fuel segFuel
+      (random_dataFull.newExec _ _ _ h) hne,
+   fun _ s' seed h hne => dataFaithful_of_proj dfs_dataFull.sched P ms seed s' fuel segFuel
+      (dfs_dataFull.newExec _ _ _ h) hne⟩
+
+/-! ### non-vacuity (part 1) -/
+
+section examples
+
+theorem not_schedPanic_of_eq {o o' : Outcome} (h : o = o') (h' : ∀ msg, o' ≠ .schedPanic msg) :
+    ∀ msg, o ≠ .schedPanic msg := by subst h; exact h'
+
+/-- the 3-task program `exR` (two draws, a yield, observations that depend on the draws and on the interleaving)
+under the round-robin scheduler, first execution (seed 0) -/
+abbrev runR := execute exR rrScheduler.sched .none 0 rr1 50 50
+/-- its panicking variant (task 1 panics because main drew an even number) -/
+abbrev runRPanic := execute exRPanic rrScheduler.sched .none 0 rr1 50 50
+/-- its deadlocking variant -/
+abbrev runRDeadlock := execute exRDeadlock rrScheduler.sched .none 0 rr1 50 50
+
+def schR : Schedule :=
+  ⟨0, [.task 0, .task 1, .task 2, .task 0, .random, .task 1, .random, .task 2, .task 0]⟩
+
+example : runR.outcome = .ok ∧ runRPanic.outcome = .panic 1 "even" ∧
+    runRDeadlock.outcome = .deadlock [(0, false, false)] := by decide +kernel
+
+example : recordedOf 0 runR = schR := by decide +kernel
+
+/-- the hypotheses of `replay_faithful` hold for the three runs (`DataFaithful` through `builtin_data_faithful`) -/
+example : (∀ msg, runR.outcome ≠ .schedPanic msg) ∧ runR.outcome ≠ .stopped ∧
+    DataFaithful 0 runR.st.log.toList := by
+  have h : runR.outcome = .ok := by decide +kernel
+  have hsp := not_schedPanic_of_eq h (by intro msg hh; cases hh)
+  refine ⟨hsp, ?_, (builtin_data_faithful_exec exR .none 50 50).1 rr0 rr1 0 rr_newExec hsp⟩
+  rw [h]; intro hh; cases hh
+
+example : (∀ msg, runRPanic.outcome ≠ .schedPanic msg) ∧ runRPanic.outcome ≠ .stopped ∧
+    DataFaithful 0 runRPanic.st.log.toList := by
+  have h : runRPanic.outcome = .panic 1 "even" := by decide +kernel
+  have hsp := not_schedPanic_of_eq h (by intro msg hh; cases hh)
+  refine ⟨hsp, ?_, (builtin_data_faithful_exec exRPanic .none 50 50).1 rr0 rr1 0 rr_newExec hsp⟩
+  rw [h]; intro hh; cases hh
+
+example : (∀ msg, runRDeadlock.outcome ≠ .schedPanic msg) ∧ runRDeadlock.outcome ≠ .stopped ∧
+    DataFaithful 0 runRDeadlock.st.log.toList := by
+  have h : runRDeadlock.outcome = .deadlock [(0, false, false)] := by decide +kernel
+  have hsp := not_schedPanic_of_eq h (by intro msg hh; cases hh)
+  refine ⟨hsp, ?_, (builtin_data_faithful_exec exRDeadlock .none 50 50).1 rr0 rr1 0 rr_newExec hsp⟩
+  rw [h]; intro hh; cases hh
+
+/-- the conclusion, checked independently by evaluation: replaying `schR` gives the same log (12 events: 8
+consultations, 2 draws with their 64-bit values, 3 observations), outcome and recorded schedule; the cursor ends
+at 9 = the length of the schedule -/
+example :
+    (execute exR replayScheduler.sched .none 0 (replayStart schR) 50 50).st.log.toList = runR.st.log.toList ∧
+    (execute exR replayScheduler.sched .none 0 (replayStart schR) 50 50).st.log.toList =
+      [.dec [0] none false (some 0), .dec [0, 1, 2] (some 0) false (some 1),
+       .dec [0, 1, 2] (some 1) false (some 2), .dec [0, 1, 2] (some 2) true (some 0),
+       .draw 6198063878555692194, .dec [0, 1, 2] (some 0) false (some 1), .obs "main drew an even number",
+       .draw 15457584781082106573, .obs "odd", .dec [0, 2] (some 1) false (some 2),
+       .obs "child 2 ran after main stored", .dec [0] (some 2) false (some 0)] ∧
+    (execute exR replayScheduler.sched .none 0 (replayStart schR) 50 50).outcome = .ok ∧
+    recordedOf 0 (execute exR replayScheduler.sched .none 0 (replayStart schR) 50 50) = schR ∧
+    (execute exR replayScheduler.sched .none 0 (replayStart schR) 50 50).st.sch.steps = 9 := by
+  decide +kernel
+
+/-- the panicking and the deadlocking run replay to the same panic / the same deadlock report -/
+example :
+    (execute exRPanic replayScheduler.sched .none 0 (replayStart (recordedOf 0 runRPanic)) 50 50).outcome =
+      .panic 1 "even" ∧
+    (execute exRDeadlock replayScheduler.sched .none 0 (replayStart (recordedOf 0 runRDeadlock)) 50 50).outcome =
+      .deadlock [(0, false, false)] := by
+  decide +kernel
+
+/-- `DataFaithful` is necessary: `lastCount` answers `next_u64` with 100, 101, … (not the stream of its seed); its
+run is complete and passes, but replaying the schedule it recorded draws other numbers, and the run differs -/
+example :
+    (execute exR lastCount .none 0 0 50 50).outcome = .ok ∧
+    draws (execute exR lastCount .none 0 0 50 50).st.log.toList = [100, 101] ∧
+    draws (execute exR replayScheduler.sched .none 0
+      (replayStart (recordedOf 0 (execute exR lastCount .none 0 0 50 50))) 50 50).st.log.toList =
+      [6198063878555692194, 15457584781082106573] := by
+  decide +kernel
+
+/-- a schedule that does not fit: each of the replay scheduler's panics is reachable in general -/
+example :
+    (execute exR replayScheduler.sched .none 0 (replayStart ⟨0, [.task 0, .random]⟩) 50 50).outcome =
+      .schedPanic msgExpectedSwitch ∧
+    (execute exR replayScheduler.sched .none 0 (replayStart ⟨0, [.task 0, .task 1]⟩) 50 50).outcome =
+      .schedPanic msgEndedEarly ∧
+    (execute exR replayScheduler.sched .none 0 (replayStart ⟨0, [.task 0, .task 5]⟩) 50 50).outcome =
+      .schedPanic msgNotRunnable ∧
+    (execute exR replayScheduler.sched .none 0 (replayStart ⟨0, [.task 0, .task 0, .task 0]⟩) 50 50).outcome =
+      .schedPanic msgExpectedRandom ∧
+    (execute exR replayScheduler.sched .none 0 (replayStart ⟨0, [.task 0, .task 0]⟩) 50 50).outcome =
+      .schedPanic msgIndex := by
+  decide +kernel
+
+/-- `replay_from_string` on the printed form of `schR` -/
+example : serializeSchedule schR = "9102090010510900" ∧ schR.wf := by decide +kernel
+
+example : newFromEncoded "9102090010510900" = some (newFromSchedule schR) := by
+  have h : serializeSchedule schR = "9102090010510900" := by decide +kernel
+  rw [← h]; exact replay_from_string schR (by decide)
+
+example : newFromEncoded " 9102 0900\n\t10510900 " = some (newFromSchedule schR) :=
+  replay_from_string_ws schR (by decide) _ (by decide +kernel)
+
+/-- `recorded_wf` applies to the recorded schedule of `runR` -/
+example : (recordedOf 0 runR).wf := by
+  have h : runR.st.k.schedule_ =
+      [.task 0, .task 1, .task 2, .task 0, .random, .task 1, .random, .task 2, .task 0] := by decide +kernel
+  refine recorded_wf 0 runR.st.k.schedule_ (by decide) ?_ (by rw [h]; decide)
+  intro t ht
+  rw [h] at ht
+  simp at ht
+  omega
+
+/-- the entry point on the printed schedule: one execution, `Ok(1)` -/
+example : (Replay.replay exR "9102090010510900" .none 50 50).map
+    (fun res => (res.count, res.execs.map (fun e => (e.1, e.2.outcome)))) = some (some 1, [(0, .ok)]) := by
+  decide +kernel
+
+end examples
 
 end ShuttleProofs.C01
